@@ -12,6 +12,7 @@ import (
 	"go/token"
 	"os"
 	"path/filepath"
+	"regexp"
 	"strconv"
 	"strings"
 	"time"
@@ -818,7 +819,13 @@ type c28Item struct {
 	known   bool // replay of corpus/C28-known.txt: reported through c.Fail (KNOWN-FINDING)
 }
 
+// brace sequences with 7-digit bounds or more are memory bombs (resource exhaustion is not C28)
+var c28HugeSeq = regexp.MustCompile(`\{-?\d*\.\.-?\d{7,}|\{-?\d{7,}\.\.`)
+
 func c28ProgItem(lang, stdin, script string, params []string, tags ...string) c28Item {
+	if c28HugeSeq.MatchString(script) {
+		script = c28HugeSeq.ReplaceAllString(script, "{1..3")
+	}
 	req := "prog " + lang + " " + stdin + " " + hx(script)
 	for _, p := range params {
 		req += " " + hx(p)
@@ -892,7 +899,7 @@ func c28Search(c *Ctx, base string, corpus []string) {
 		items = append(items, c28Item{req: req, witness: req, key: req, tags: []string{"search:options"}})
 	}
 
-	workers := 6
+	workers := 4
 	timeout := 400 * time.Millisecond
 	if c.Shards > 1 {
 		workers = 2
